@@ -405,6 +405,13 @@ def gen_alignments(rng):
         free = [i for i in range(60, 90) if i not in data]
         for i, (t, w) in zip(rng.sample(free, 3), SWAP_ROWS):
             data[i] = [t, "woldemort", w.replace(" ", ""), w.split(), 20]
+    if len(concepts) >= 2 and rng.random() < 0.4:
+        # a cognate set with words of two concepts inside one doculect: the file groups the rows by concept, so the
+        # object read back holds them in another order than the object saved (add_alignments: id order, 246780d)
+        c1, c2 = rng.sample(concepts, 2)
+        for k in data:
+            if k != 0 and data[k][1] in (c1, c2):
+                data[k][4] = 50
     if rng.random() < 0.5:
         # a cognate set all of whose words are ONE segment of several code points (long vowel, aspirate, affricate,
         # nasalised vowel): its alignment has a single column (normalize_alignment's one-cell rows)
@@ -429,7 +436,7 @@ def gen_alignments(rng):
     return {"type": "alignments", "mode": "valid", "data": data, "prettify": rng.choice([True, False]),
             "analysis": "align", "swap_check": swap, "history": rng.choice([1, 2, 2]),
             "ignore": ignore, "plant_local": ignore == [] and rng.random() < 0.4, "consensus": cons,
-            "second_ref": second}
+            "second_ref": second, "consensus_after": rng.random() < 0.3}
 
 
 def from_json(c):
@@ -463,6 +470,8 @@ def _analyse(obj, case):
         return None
     if an == "align":
         obj.align(method="progressive", swap_check=bool(case.get("swap_check")))
+        if case.get("consensus_after") and obj.msa["cogid"]:
+            obj.get_consensus()               # a second analysis whose result (majority votes) depends on the row order
         return _msa_state(obj)                # both objects are analysed afresh: annotations included
     ref = {"sca": "scaid", "edit-dist": "editid", "turchin": "turchinid"}[an]
     obj.cluster(method=an, threshold=case.get("threshold", 0.45), ref=ref, override=True)
@@ -483,12 +492,6 @@ def _msa_state(obj, annotations=True, all_refs=False):
                 rows.insert(0, "ref=" + ref)
             for ann in ("swaps", "local", "consensus") if annotations else ():
                 val = list(msa.get(ann) or [])
-                if ann == "consensus":
-                    # msa2str pads the CONSENSUS line to the width of the alignment and the padding is read back as ''
-                    # (theorem C13_msa_consensus_padding_refuted; repair proposed to the lead): the exact comparison is
-                    # bit 7 under the guard "one consensus segment per column", here the padding is ignored
-                    while val and val[-1] == "":
-                        val.pop()
                 if val:
                     rows.append("%s=%s" % (ann, " ".join(str(tuple(x)) if isinstance(x, (list, tuple)) else str(x)
                                                          for x in val)))
